@@ -692,7 +692,11 @@ class Machine:
             return old
         if op == "replace":
             old = self._snapshot(a[0])
-            if not self._assign(raw[0], a[0], self._snapshot(a[1])):
+            # (the value moved in is the object itself when the place is a slot that can hold it; a copy when the place's own object
+            # has to become it)
+            if isinstance(raw[0], absint.Ptr):
+                raw[0].set(a[1])
+            elif not self._assign(raw[0], a[0], self._snapshot(a[1])):
                 raise Stuck("mem::replace on an opaque place")
             return old
         if op == "swap":
@@ -1723,6 +1727,25 @@ class Machine:
                         raise Stuck("retain: the predicate's answer for an entry is not known")
                 return []
             raise Stuck("retain on a map that is not known")
+        # ---- the larger / smaller of two integers or of two values of a field-less enum (derived Ord: the order of the variants)
+        if end in ("max", "min") and (c in ("std::cmp::max", "std::cmp::min", "core::cmp::max", "core::cmp::min") or c.endswith("cmp::Ord>::max")
+                                      or c.endswith("cmp::Ord>::min") or c.endswith("cmp::Ord::max") or c.endswith("cmp::Ord::min")) and len(a) == 2:
+            def rank_(x):
+                if isinstance(x, bool):
+                    return None
+                if isinstance(x, int):
+                    return x
+                if isinstance(x, Enum) and not x.fields and getattr(x, "adt", None):
+                    g_ = [f_ for f_ in self.fb.all(self.crate) if f_.trait and "cmp::Ord" in f_.trait and f_.self_ty and
+                          mir.norm(f_.self_ty).split("<")[0] == x.adt]
+                    return x.variant if g_ and all(f_.derived for f_ in g_) else None
+                return None
+            ra_, rb_ = rank_(a0), rank_(a[1])
+            if ra_ is not None and rb_ is not None and type(a0) is type(a[1]):
+                # (max returns the second argument when they compare equal, min the first)
+                if end == "max":
+                    return a[1] if rb_ >= ra_ else a0
+                return a0 if ra_ <= rb_ else a[1]
         # ---- comparisons
         if end in ("eq", "ne") and ("PartialEq" in c or "cmp::impls" in c or "str::traits" in c) and len(a) == 2:
             r = veq(a0, a[1])
